@@ -1,1 +1,42 @@
-"""C11 ext"""
+"""C11 (extension): writing / re-writing / creating annotations (mfan.c), reading through the single-file interface (dfan.c)"""
+from .core import ob
+
+WR = dict(unit="mfan_wr_u.c", file="hdf/src/mfan.c", cex_unwind=14, objbits=8,
+          trusted=["HAatom_object/HAatom_group/HAregister_atom/HAremove_atom (one annotation node, one file record, one new id)",
+                   "tbbtdfind/tbbtdins/tbbtdmake (finite map with one modelled key; a duplicate key is refused like tbbt.c tbbtins)",
+                   "Hstartwrite/Hwrite/Hendaccess/Hputelement/HDreuse_tagref over one ghost element (length kept by Hstartwrite unless "
+                   "absent or reset; Hwrite refuses length <= 0 and writes beyond the element's length)",
+                   "Htagnewref (any ref not in the DD list for the tag; does not reserve it)"])
+# the ref scan of ANIcreate (next ref used neither by the file nor by the tree) runs at most 3 times over the one-element model:
+# unwound 6 times (the harness has a constant loop of 4), the unwinding assertion proves that nothing is cut off
+CRW = dict(WR, mode="proved-finite", unwind=6, bound="ref scan of ANIcreate: at most 3 iterations over the one-element DD list / one-entry tree model",
+           trusted=WR["trusted"] + ["ANIcreate_ann_tree: ASSUMED contract (loads the on-disk annotations of a type into a fresh tree; may fail)",
+                                        "Hexist over the one modelled element"])
+# per-call contract, inductive over histories: 'new' mark <=> no element yet
+ob("ANIwriteann", ["C11"], entry="h_ANIwriteann", enforce="ANIwriteann", **WR)
+# the lengths for which ann_len + 4 is not representable (failed on the tree as found: signed overflow in Hstartwrite(.., ann_len + 4) after the old
+# annotation had been given up; D60, repaired: such a length is refused first)
+ob("ANIwriteann_maxlen", ["C11"], entry="h_ANIwriteann_maxlen", enforce="ANIwriteann", **WR)
+# explicit two-call history on the real code (no contract): write, write again shorter/longer
+ob("an_write_twice", ["C11"], entry="h_an_write_twice", **WR)
+# full domain (failed on the tree as found: D59 id left registered, D61 ref collision; both repaired)
+ob("ANIcreate", ["C11"], entry="h_ANIcreate", enforce="ANIcreate", replace=["ANIcreate_ann_tree"], **CRW)
+# no fault injected below (failed on the tree as found, D61) -- a second ANcreate of the same type before the first annotation is written gets the
+# same ref from Htagnewref, the tree refused the duplicate key, ANIcreate returned FAIL (and left the id registered)
+ob("ANIcreate_nofault", ["C11"], entry="h_ANIcreate_nofault", enforce="ANIcreate", replace=["ANIcreate_ann_tree"], **CRW)
+# the complement of both findings (no ref collision, no tree-insertion fault)
+ob("ANIcreate_rest", ["C11"], entry="h_ANIcreate_rest", enforce="ANIcreate", replace=["ANIcreate_ann_tree"], **CRW)
+
+DG = dict(unit="dfan_get_u.c", file="hdf/src/dfan.c", cex_unwind=14, objbits=8, replace=["DFANIopen", "DFANIlocate"],
+          trusted=["DFANIopen (ASSUMED contract: yields the file id or fails)", "DFANIlocate (ASSUMED contract: yields the located annotation ref, 0 = none)",
+                   "Hstartread/Hinquire/Hlength/Hread/Hendaccess/Hclose (one ordinary element; Hread semantics of hfile.c incl. length 0 = to the end)",
+                   "HPregister_term_func (may fail)"])
+# full domain (failed on the tree as found, D57: FAIL - 4 == -5 was returned as a length; repaired)
+ob("DFANIgetannlen", ["C11"], entry="h_DFANIgetannlen", enforce="DFANIgetannlen", **DG)
+ob("DFANIgetannlen_ok", ["C11"], entry="h_DFANIgetannlen_ok", enforce="DFANIgetannlen", **DG)
+# full domain (failed on the tree as found on the zero-room inputs: C label with maxlen == 1 / description with maxlen == 0; D58, repaired)
+ob("DFANIgetann", ["C11"], entry="h_DFANIgetann", enforce="DFANIgetann", **DG)
+ob("DFANIgetann_room", ["C11"], entry="h_DFANIgetann_room", enforce="DFANIgetann", **DG)
+# faithful byte-by-byte Hread model instead of the sparse one, sizes capped
+ob("DFANIgetann_room_b", ["C11"], entry="h_DFANIgetann_room", enforce="DFANIgetann", mode="bounded",
+   bound="stored element <= 12 bytes, maxlen <= 12", defines=["H4V_CEX"], unwind=14, **DG)
